@@ -3,16 +3,45 @@
 -/
 import Bita.Model.Proto
 import Bita.Spec.ArchiveSpec
+import Bita.Proofs.ProtoDict
 
 namespace Bita.Proofs
 open Bita Bita.Proto Bita.Spec
 
 theorem varint_roundtrip (n : Nat) (hn : n < 2 ^ 64) (rest : Bytes) :
-    decodeVarint (encodeVarint n ++ rest) = some (n, rest) := by
-  sorry
+    decodeVarint (encodeVarint n ++ rest) = some (n, rest) :=
+  decodeVarint_encode n hn rest
+
+/-- Merging the fields of an encoded well-formed dictionary into the default value gives the
+dictionary back. -/
+theorem merge_dictFields (d : ChunkDictionary) (hwf : DictWF d) (hl : ProtoLenOK d) :
+    mergeDictionary (dictFields d) {} = some d := by
+  obtain ⟨hver, -, hpar, hcompr, horder, hdescr, hutf, hsorted, -⟩ := hwf
+  obtain ⟨-, -, -, -, -, hdl, hml⟩ := hl
+  obtain ⟨ver, ck, tot, po, co, ns, cs, ms⟩ := d
+  simp only at hver hpar hcompr horder hdescr hutf hsorted hdl hml
+  simp only [dictFields, mergeDictionary_append]
+  rw [mergeDictionary_version _ _ rfl hver, Option.bind_some,
+    mergeDictionary_checksum _ _ rfl, Option.bind_some,
+    mergeDictionary_total _ _ rfl, Option.bind_some,
+    mergeDictionary_params _ _ rfl (fun p hp => by
+      obtain ⟨h1, h2, h3, h4, h5, h6⟩ := hpar p hp; exact ⟨h1, h2, h3, h4, h5, h6⟩),
+    Option.bind_some,
+    mergeDictionary_compr _ _ rfl hcompr, Option.bind_some,
+    mergeDictionary_order _ _ rfl horder, Option.bind_some,
+    mergeDictionary_descrs _ _ (fun c hc => ⟨hdl c hc, hdescr c hc⟩), Option.bind_some,
+    mergeDictionary_metas _ _ (fun e he => ⟨hml e he, hutf e he⟩) (by simpa using hsorted)]
+  simp
+
+/-- The roundtrip under explicit bounds on the length prefixes. -/
+theorem proto_roundtrip_of_lenOK (d : ChunkDictionary) (hwf : DictWF d) (hl : ProtoLenOK d) :
+    decodeDictionary (encodeDictionary d) = some d := by
+  unfold decodeDictionary
+  rw [(parsesTo_encodeDictionary d hwf.total hl).parse_eq, Option.bind_some]
+  exact merge_dictFields d hwf hl
 
 theorem proto_roundtrip (d : ChunkDictionary) (hwf : DictWF d) :
-    decodeDictionary (encodeDictionary d) = some d := by
-  sorry
+    decodeDictionary (encodeDictionary d) = some d :=
+  proto_roundtrip_of_lenOK d hwf (protoLenOK_of_size d hwf.size)
 
 end Bita.Proofs
